@@ -1,6 +1,7 @@
 package props
 
 import (
+	"context"
 	"fmt"
 	"strings"
 
@@ -12,7 +13,7 @@ import (
 // Part C of C17 (and of C18): the summon protocol of hydra under close / destroy / shutdown, driven directly at the
 // hydra API so that many participants stay affordable. Setup: an in-memory swamp exists and one operation is in flight
 // on it (a vigil is held). Participants: D destroys the swamp (waits for the vigil), V ends the in-flight operation,
-// k summoners ask for the same swamp (they queue on the per-name slot and wait for the closing instance), M marks the
+// k summoners ask for the same swamp (they queue on the per-name slot and wait for the closing instance), X asks for it with a context that has already ended, M marks the
 // server as shutting down. Quick tier: every order in which the participants can be started and resumed when the
 // running one blocks or finishes (no preemption); thorough tier: additionally every schedule with one preemption inside
 // hydra.SummonSwamp / vigil / Destroy.
@@ -24,19 +25,24 @@ type c17cProg struct {
 	summoners int
 	destroy   bool
 	mark      bool
+	cancelled int // further summoners whose context has already ended when they call
 }
 
 func (p c17cProg) String() string {
-	return fmt.Sprintf("summoners=%d destroy=%v shutdown-mark=%v", p.summoners, p.destroy, p.mark)
+	s := fmt.Sprintf("summoners=%d destroy=%v shutdown-mark=%v", p.summoners, p.destroy, p.mark)
+	if p.cancelled > 0 {
+		s += fmt.Sprintf(" cancelled-summoners=%d", p.cancelled)
+	}
+	return s
 }
 
 func c17cExplore(r *kit.Run, prop string) {
 	rigSetup()
 	lcLogs.install()
-	progs := []c17cProg{{2, true, false}, {2, true, true}, {3, true, true}}
+	progs := []c17cProg{{2, true, false, 0}, {2, true, true, 0}, {3, true, true, 0}, {2, true, false, 1}}
 	bound := 0
 	if !r.Quick() {
-		progs = append(progs, c17cProg{3, true, false}, c17cProg{3, false, true})
+		progs = append(progs, c17cProg{3, true, false, 0}, c17cProg{3, false, true, 0}, c17cProg{2, true, true, 1})
 		bound = 1
 	}
 	var pn []string
@@ -66,6 +72,16 @@ func c17cExplore(r *kit.Run, prop string) {
 			for i := 0; i < pr.summoners; i++ {
 				ths = append(ths, vrt.GoSym(fmt.Sprintf("S%d:Summon", i), "summoner", func() {
 					if s, err := h.SummonSwamp(bg, 1, nm); err == nil && s != nil {
+						s.BeginVigil()
+						s.CeaseVigil()
+					}
+				}))
+			}
+			for i := 0; i < pr.cancelled; i++ {
+				ths = append(ths, vrt.Go(fmt.Sprintf("X%d:Summon(ended context)", i), func() {
+					ctx, cancel := context.WithCancel(bg)
+					cancel()
+					if s, err := h.SummonSwamp(ctx, 1, nm); err == nil && s != nil {
 						s.BeginVigil()
 						s.CeaseVigil()
 					}
